@@ -1,19 +1,20 @@
 """C36 Addresses have one canonical text and byte form (spec/codec/Address.tla)."""
 import json
 
-ACTIONS = ["Type", "PushByte", "Start", "Strict", "LenientCall", "Validate", "PrintCall", "BytesCall", "FromBytesCall"]
+ACTIONS = ["Type", "PushByte", "Start", "Strict", "LenientCall", "Validate", "PrintCall", "BytesCall", "FromBytesCall",
+           "NewCall", "IsContractCall", "EqualCall", "CodecCall"]
 
 
 def run(ctx):
     # 1. exhaustive: ids of L = 1 byte, every string over the 12 character classes up to MaxStr characters and
     #    every byte string up to 3 bytes, all calls of both pipelines
     ms = ctx.pick(4, 5)
-    r = ctx.model_check("codec", "MC_Address", "MC_Address.cfg",
+    r = ctx.model_check("codec", "MC_Address", ctx.pick("MC_Address.cfg", "MCT_Address.cfg"),
                         constants={"L": 1, "MaxStr": ms, "MaxBytes": 3, "FreeLen": ms, "Dev": ms},
                         coverage=True, timeout=ctx.pick(400, 2400), label="L=1 all strings")
     ctx.check_coverage(r, ACTIONS)
     if not ctx.quick():
-        r = ctx.model_check("codec", "MC_Address", "MC_Address.cfg",
+        r = ctx.model_check("codec", "MC_Address", "MCT_Address.cfg",
                             constants={"L": 2, "MaxStr": 7, "MaxBytes": 4, "FreeLen": 3, "Dev": 2},
                             coverage=True, timeout=2400, label="L=2 shaped")
         ctx.check_coverage(r, ACTIONS)
@@ -32,9 +33,11 @@ def run(ctx):
         n_b21 = sum(1 for b in bs if b[0]["op"] == "frombytes" and b[0]["ok"] and len(b[0]["bytes"]) == 21)
         n_b21rej = sum(1 for b in bs if b[0]["op"] == "frombytes" and not b[0]["ok"] and len(b[0]["bytes"]) == 21)
         n_b20 = sum(1 for b in bs if b[0]["op"] == "frombytes" and b[0]["ok"] and len(b[0]["bytes"]) == 20)
-        if min(n_strict, n_b21, n_b21rej, n_b20) == 0:
+        n_new = sum(1 for b in bs if b[0]["op"] == "new" and len(b) == 11)
+        n_nil = sum(1 for b in bs if b[0]["op"] == "equal" and b[-1]["op"] == "codec" and b[-1]["nil"])
+        if min(n_strict, n_b21, n_b21rej, n_b20, n_new, n_nil) == 0:
             raise vlib.MachineryError("vacuity: generator produced no accepted strict string / 21-byte form / "
-                                      "rejected type byte / 20-byte form: %s" % [n_strict, n_b21, n_b21rej, n_b20])
+                                      "rejected type byte / 20-byte form: %s" % [n_strict, n_b21, n_b21rej, n_b20, n_new, n_nil])
     inp = ctx.path("in", "address.ndjson")
     with open(inp, "w") as fh:
         for b in bs:
@@ -49,7 +52,9 @@ def run(ctx):
              "strings of 40..44 characters with at most one character off the canonical pattern, at any position) "
              "or a byte string (0,1,19,20,21,22,42 bytes, 5 classes of first byte) followed by the fixed pipeline "
              "of calls (SetStringStrict, SetString, 3 validator rules, String, Bytes, SetBytes / SetBytes, String, "
-             "SetStringStrict, Bytes); each concretized 3/6 times; distinct by its class string; non-trivial if "
+             "SetStringStrict, Bytes), or id bytes of 0,1,19..22 bytes given to NewAccountAddress/NewContractAddress "
+             "followed by IsContract, String, SetStringStrict, Bytes, SetBytes, Equal against the same/other "
+             "type/other id/nil address and the codec form, or the nil address; each concretized 3/6 times; distinct by its class string; non-trivial if "
              "the input is not empty",
         assumptions=["ASCII candidate strings (multi-byte characters are not generated)",
                      "encoding/hex is trusted to build expected ids from concretized digits",
